@@ -101,6 +101,9 @@ pub enum Step {
     /// media damage at rest (C06): before the next open of the existing file the header page
     /// that is *not* current is damaged in way `kind`; the open must still not touch the file
     DamageOlderHeader { kind: u8 },
+    /// before the next open of the existing file both headers are re-stamped in the legacy
+    /// (0.10, SHA3-256) format, as if an old release had written the file so far
+    RestampLegacy,
 }
 
 fn path_json(p: &Path) -> Value {
@@ -169,6 +172,7 @@ impl Step {
             Step::KvPairs { .. } => "kv_pairs",
             Step::Check => "check",
             Step::DamageOlderHeader { .. } => "damage_older_header",
+            Step::RestampLegacy => "restamp_legacy",
         }
     }
 
@@ -215,7 +219,7 @@ impl Step {
     pub fn to_json(&self) -> Value {
         let op = self.name();
         match self {
-            Step::Begin { .. } | Step::Commit | Step::Drop | Step::Reopen | Step::OpenReader | Step::Check => {
+            Step::Begin { .. } | Step::Commit | Step::Drop | Step::Reopen | Step::OpenReader | Step::Check | Step::RestampLegacy => {
                 json!({ "op": op })
             }
             Step::CloseReader { idx } => json!({"op": op, "idx": idx}),
@@ -259,6 +263,7 @@ impl Step {
             "reopen" => Step::Reopen,
             "open_reader" => Step::OpenReader,
             "check" => Step::Check,
+            "restamp_legacy" => Step::RestampLegacy,
             "damage_older_header" => Step::DamageOlderHeader { kind: v.get("kind")?.as_u64()? as u8 },
             "close_reader" => Step::CloseReader { idx: v.get("idx")?.as_u64()? as u32 },
             "put" => Step::Put { path: path()?, key: blob("key")?, val: blob("val")?, via: via() },
